@@ -22,6 +22,17 @@ def corpus(rnd):
         # payloads whose checksum is 0x0000 (all-zero data): the checksum field then equals the "no payload" value
         out.append((request(0, 1, ws16, 0x0102, 0x300, 3, [0] * (3 * ws)), ws16))
         out.append((frame(T_RRESP, opts_for(0, ws16, True), 0, 8, 0x20, 1, [0] * ws), ws16))
+    # frames whose *header* checksum happens to be 0x0000 / 0xFFFF, and a payload whose checksum is 0xFFFF (found by search)
+    for want in (0x0000, 0xFFFF):
+        for sq in range(65536):
+            o = request(0, 0, 0, sq, 0x0A0B0C0D, 3)
+            if (o[12] << 8 | o[13]) == want:
+                out.append((o, 0))
+                break
+    for x in range(65536):
+        if crc16([x >> 8, x & 255]) == 0xFFFF:
+            out.append((request(0, 1, 0, 0x0203, 0x400, 2, [x >> 8, x & 255]), 0))
+            break
     out.append((frame(T_WRESP, opts_for(0, 0, False), 0, 7, 0x20, 0, []), 0))
     out.append((frame(T_WRESP, opts_for(0, 0, True), 7, 9, 0x20, 4, [0, 0, 0, 0x21]), 0))
     out.append((frame(T_META, opts_for(0, 0, False), 1, 0, 0, 0, []), 0))
